@@ -642,6 +642,18 @@ def aggregate_records(ctx) -> None:
     # the fold
     folds = [n for n in fv.cfg.nodes if n.kind == "stmt" and isinstance(n.ast, (ast.Assign, ast.Return)) and n.ast.value is not None and any(is_name(s, L) for s in ast.walk(n.ast.value)) and (
         (isinstance(n.ast, ast.Assign) and isinstance(n.ast.targets[0], ast.Name) and n.ast.targets[0].id != L) or isinstance(n.ast, ast.Return))]
+    # plain copies of the list (`result = tips`, the return value of an expanded helper) are the list
+    aliases = {L}
+    for _round in range(4):
+        copies = [n for n in folds if isinstance(n.ast, ast.Assign) and isinstance(n.ast.value, ast.Name) and n.ast.value.id in aliases and isinstance(n.ast.targets[0], ast.Name)]
+        if not copies:
+            break
+        for n in copies:
+            aliases.add(n.ast.targets[0].id)
+        folds = [n for n in fv.cfg.nodes if n.kind == "stmt" and isinstance(n.ast, (ast.Assign, ast.Return)) and n.ast.value is not None and any(isinstance(s, ast.Name) and s.id in aliases for s in ast.walk(n.ast.value))
+                 and ((isinstance(n.ast, ast.Assign) and isinstance(n.ast.targets[0], ast.Name) and n.ast.targets[0].id not in aliases) or isinstance(n.ast, ast.Return))]
+    if len(aliases) > 1 and len(folds) == 1:
+        L = next(s.id for s in ast.walk(folds[0].ast.value) if isinstance(s, ast.Name) and s.id in aliases)
     if len(folds) != 1:
         ctx.rep.inconclusive(rule, f.qualname + "/fold", f"expected one fold of `{L}` into the mask, found {len(folds)}")
         return
@@ -651,7 +663,9 @@ def aggregate_records(ctx) -> None:
         # unique = set(tips); mask = sum(unique)
         U = folds[0].ast.targets[0].id
         nxt = [n for n in fv.cfg.nodes if n.kind == "stmt" and isinstance(n.ast, (ast.Assign, ast.Return)) and n.ast.value is not None and any(is_name(s_, U) for s_ in ast.walk(n.ast.value)) and n.id != folds[0].id]
-        if len(nxt) == 1 and isinstance(nxt[0].ast.value, ast.Call) and call_fname(nxt[0].ast.value) == "sum" and len(nxt[0].ast.value.args) == 1 and is_name(nxt[0].ast.value.args[0], U):
+        if len(nxt) == 1 and isinstance(nxt[0].ast.value, ast.Call) and call_fname(nxt[0].ast.value) == "sum" and is_name(nxt[0].ast.value.args[0], U) and (
+                len(nxt[0].ast.value.args) == 1 or (len(nxt[0].ast.value.args) == 2 and isinstance(nxt[0].ast.value.args[1], ast.Constant) and nxt[0].ast.value.args[1].value == 0
+                                                    and not isinstance(nxt[0].ast.value.args[1].value, bool))):
             kind = "sum-set"
     ctx.rep.check(kind in ("sum-set", "or"), rule, f"{f.qualname}/fold", f"mask = {kind} of the members (idempotent on repeats)",
                   f"the mask is `{show(folds[0].ast.value)}`: a plain sum counts a repeated tip twice (tips [1, 1] give the mask of tip 2)" if kind == "sum" else f"unrecognised fold `{show(folds[0].ast.value)}`", where=f.where(folds[0].ast))
@@ -704,10 +718,35 @@ def fold_kind(v: ast.AST, L: Optional[str] = None) -> str:
         if is_sym(a, "comp") and isinstance(a.args[0], ast.Constant) and a.args[0].value == "SetComp":
             return "sum-set"
         return "sum"
+    while isinstance(v, ast.Call) and call_fname(v) == "int" and len(v.args) == 1 and not v.keywords:
+        v = v.args[0]
+    # numpy reductions:  numpy.bitwise_or.reduce(tips[, dtype=T])   numpy.packbits(numpy.isin([1, 2, .. 128], tips)[, bitorder=..])[0]
+    if isinstance(v, ast.Call) and isinstance(v.func, ast.Attribute) and v.func.attr == "reduce" and isinstance(v.func.value, ast.Attribute) and v.func.value.attr in ("bitwise_or", "add") and v.args:
+        dt = next((k.value for k in v.keywords if k.arg == "dtype"), None)
+        if dt is not None:
+            name_ = show(dt).split(".")[-1]
+            name_ = NUMPY_DTYPE_ALIASES.get(name_, name_)
+            if name_ in ("int8", "bool_", "bool", "byte"):
+                return "narrow-dtype:" + name_
+            if name_ not in ("int", "int16", "int32", "int64", "uint8", "uint16", "uint32", "uint64", "intp", "int_", "ubyte", "short", "longlong", "object"):
+                return "unknown"
+        return "or" if v.func.value.attr == "bitwise_or" else "sum"
+    if isinstance(v, ast.Subscript) and isinstance(v.slice, ast.Constant) and v.slice.value == 0 and isinstance(v.value, ast.Call) and call_fname(v.value) == "packbits" and v.value.args:
+        inner = v.value.args[0]
+        if isinstance(inner, ast.Call) and call_fname(inner) == "isin" and len(inner.args) == 2 and isinstance(inner.args[0], (ast.List, ast.Tuple)) \
+                and [getattr(e, "value", None) for e in inner.args[0].elts] == [1, 2, 4, 8, 16, 32, 64, 128]:
+            order = next((k.value for k in v.value.keywords if k.arg == "bitorder"), None)
+            if isinstance(order, ast.Constant) and order.value == "little":
+                return "or"
+            if order is None or (isinstance(order, ast.Constant) and order.value == "big"):
+                return "bit-reversed"
     if isinstance(v, ast.Call) and call_fname(v) == "reduce" and v.args:
         op = show(v.args[0])
         return "or" if "or_" in op or "|" in op else ("sum" if "add" in op or "+" in op else "unknown")
     return "unknown"
+
+
+NUMPY_DTYPE_ALIASES: Dict[str, str] = {}
 
 
 def _mask_fold(ctx, fv, f, name: str, at: int, depth: int = 0) -> Tuple[str, Optional[ast.AST]]:
@@ -741,7 +780,25 @@ def _mask_fold(ctx, fv, f, name: str, at: int, depth: int = 0) -> Tuple[str, Opt
                 seq = sq if sq is not None else seq
                 kinds.append(k)
                 continue
+            import copy as _copy
+
+            v = _copy.deepcopy(v)
+            for x_ in ast.walk(v):
+                # a dtype held in a module-level constant
+                if isinstance(x_, ast.keyword) and x_.arg == "dtype" and isinstance(x_.value, ast.Name) and x_.value.id in f.module.assigns:
+                    x_.value = f.module.assigns[x_.value.id]
             k = fold_kind(v)
+            if k == "unknown":
+                try:
+                    k = fold_kind(fv.res.resolve(v, d))  # parts held in locals
+                except Exception:
+                    k = "unknown"
+            if k in ("or", "sum") and seq is None and isinstance(v, ast.Call):
+                inner_ = v
+                while isinstance(inner_, ast.Call) and call_fname(inner_) == "int" and len(inner_.args) == 1:
+                    inner_ = inner_.args[0]
+                if isinstance(inner_, ast.Call) and inner_.args:
+                    seq = fv.res.resolve(inner_.args[0], d)
             if k == "unknown" and isinstance(v, ast.Call) and depth < 2:
                 cal = ctx.prog.resolve_call(f, v, fv.env)
                 if cal.kind == "func":
@@ -754,6 +811,9 @@ def _mask_fold(ctx, fv, f, name: str, at: int, depth: int = 0) -> Tuple[str, Opt
         return "unknown", seq
     if "bad-init" in kinds:
         return "bad-init", seq
+    for k in kinds:
+        if k.startswith("narrow-dtype:") or k == "bit-reversed":
+            return k, seq
     if all(k in ("or", "sum-set") for k in kinds):
         return "or", seq
     if "sum" in kinds:
@@ -879,6 +939,12 @@ def aggregate_evo(ctx) -> None:
                           f"the mask of {name} is a plain sum over the given tips and its validator does not establish that they are distinct: a repeated tip turns into a different tip (tips=[1, 1] -> mask 2)", where=w)
         elif kind == "bad-init":
             ctx.rep.refuted(rule, f"{f.qualname}/mask", f"the tip mask `{show(first)[:40]}` does not start from 0: a tip that was not selected is part of every mask", where=w)
+        elif kind.startswith("narrow-dtype:"):
+            ctx.rep.refuted(rule, f"{f.qualname}/mask", f"the tip mask of {name} is folded in a numpy `{kind.split(':')[1]}`: the bit of tip 8 (128) does not fit and wraps - "
+                            "tips=[8] gives the mask -128", where=w)
+        elif kind == "bit-reversed":
+            ctx.rep.refuted(rule, f"{f.qualname}/mask", f"the tip mask of {name} is packed with numpy.packbits in its default bit order ('big'): the first entry of the table lands in the "
+                            "most significant bit - tips=[1] gives the mask 128", where=w)
         else:
             ctx.rep.inconclusive(rule, f"{f.qualname}/mask", f"cannot classify how the tip mask `{show(first)[:40]}` is folded", where=w)
         # the folded sequence is the validator's tips output
